@@ -1,4 +1,108 @@
+import IpcHub.Drv.Util
+import IpcHub.Model.RegistryInst
+import IpcHub.Spec.Registry
+import IpcHub.Model.RegistryLts
 namespace IpcHub.Drv.C05
-/-- placeholder: no model built for this property yet -/
-def handle (_ : List String) : String := "bad-op"
+open IpcHub.Drv IpcHub.CanonPath IpcHub.Registry IpcHub.RegistrySpec IpcHub.RegistryLts
+
+def nat? (s : String) : Option Nat := s.toNat?
+
+/-- one op token: fields separated by ':' -/
+def parseOp (tok : String) : Option Op :=
+  match tok.splitOn ":" with
+  | ["new", p, h] => (hexToChars p).map (fun p => .new p (h = "1"))
+  | ["reg", i] => (nat? i).map .regist
+  | ["unreg", i] => (nat? i).map .unregist
+  | ["close", i] => (nat? i).map .close
+  | ["stop", p] => (hexToChars p).map .stop
+  | ["join", i, f] => (nat? i).map (fun i => .join i (f = "1"))
+  | ["leave", i, f, c] => match nat? i, nat? c with
+    | some i, some c => some (.leave i (f = "1") c)
+    | _, _ => none
+  | ["tick", t, d] => match nat? t, nat? d with
+    | some t, some d => some (.tick t d)
+    | _, _ => none
+  | ["touch", i] => (nat? i).map .touch
+  | ["adv", n] => (nat? n).map .advance
+  | ["get", p] => (hexToChars p).map .get
+  | ["count"] => some .count
+  | ["infos", t, n] => match hexToChars t, nat? n with
+    | some t, some n => some (.infos t n)
+    | _, _ => none
+  | ["idle", i] => (nat? i).map .postIdle
+  | ["probe", i] => (nat? i).map .probe
+  | _ => none
+
+def parseOps : List String → Option (List Op)
+  | [] => some []
+  | t :: ts => match parseOp t, parseOps ts with
+    | some o, some os => some (o :: os)
+    | _, _ => none
+
+def optNat : Option Nat → String
+  | none => "nil"
+  | some n => toString n
+
+def showObs : Obs → String
+  | .unit => "-"
+  | .sid o => "s" ++ optNat o
+  | .cid o => "c" ++ optNat o
+  | .cnt a b => s!"n{a}/{b}"
+  | .paths t ps => s!"p{t}[" ++ ",".intercalate (ps.map charsToHex) ++ "]"
+  | .tick (.ran c) => "t" ++ boolStr c
+  | .tick .panic => "tpanic"
+  | .tick .bad => "tbad"
+  | .probe ok n => s!"q{boolStr ok}/{n}"
+
+def showAll (os : List Obs) : String := if os.isEmpty then "-" else ";".intercalate (os.map showObs)
+
+def parseROp (tok : String) : Option ROp :=
+  match tok.splitOn ":" with
+  | ["reg", i] => (nat? i).map .regist
+  | ["unreg", i] => (nat? i).map .unregist
+  | _ => none
+
+def ropToOp : ROp → Op
+  | .regist i => .regist i
+  | .unregist i => .unregist i
+
+/-- split a token list at the first "/" -/
+def splitBar : List String → List String × List String
+  | [] => ([], [])
+  | t :: ts => if t = "/" then ([], ts) else let (a, b) := splitBar ts; (t :: a, b)
+
+def locksHeld : Bool := IpcHub.Gen.registLocked && IpcHub.Gen.unregistLocked && IpcHub.Gen.registLockIsMutex
+
+/-- `race <pre ops> / <A> <B> / <post ops>`: thread A is paused at its verif point (after Load),
+    B runs, A resumes.  model = observations of the post ops after the LTS run with the source's
+    locking fact; ab / ba = the specification after the two serial orders. -/
+def handleRace (toks : List String) : String :=
+  let (pre, rest) := splitBar toks
+  let (mid, post) := splitBar rest
+  match parseOps pre, mid.map parseROp, parseOps post with
+  | some pre, [some a, some b], some post =>
+    let st0 := run asciiCfg genFacts State.empty pre
+    let c := runSched locksHeld (initC st0 [a, b]) pauseSchedule
+    let m := showAll (runObs asciiCfg genFacts c.st post)
+    let a0 := specRun asciiCfg Abs.empty pre
+    let ab := showAll (specObs asciiCfg (specRun asciiCfg a0 [ropToOp a, ropToOp b]) post)
+    let ba := showAll (specObs asciiCfg (specRun asciiCfg a0 [ropToOp b, ropToOp a]) post)
+    s!"model={m} done={boolStr (allDone c)} ab={ab} ba={ba}"
+  | _, _, _ => "bad-op"
+
+/-- `hist <op> <op> …` → `model=<obs;obs;…> spec=<obs;…>`
+    `canon <hex>` → `model=<hex>` -/
+def handle : List String → String
+  | "hist" :: toks =>
+    match parseOps toks with
+    | some ops =>
+      s!"model={showAll (runObs asciiCfg genFacts State.empty ops)} spec={showAll (specObs asciiCfg Abs.empty ops)}"
+    | none => "bad-op"
+  | "race" :: toks => handleRace toks
+  | ["canon", p] =>
+    match hexToChars p with
+    | some p => s!"model={charsToHex (canonicalPath asciiCfg p)}"
+    | none => "bad-op"
+  | _ => "bad-op"
+
 end IpcHub.Drv.C05
